@@ -1,10 +1,12 @@
+import GoaVerif.Lemmas.DupHeap
 import GoaVerif.Lemmas.TypeHash
 /-!
 # C13 — structural hashes: property theorems
 Model `GoaVerif.Model.TypeHash` (hand-written from expr/hasher.go, separator constants from
 tie T2, tie T3 `rtexpr` ↔ `drv_hash` on the exact hash strings, all 8 flag combinations).
-Copy independence (`Dup`/`DupAtt`) is decided on the implementation by a reflective
-pointer-disjointness oracle and mutation scripts (see DESIGN.md C13): no heap model yet.
+Copy independence (`Dup`): heap model `GoaVerif.Model.DupHeap` with frame, freshness and independence
+theorems below; on the implementation a reflective pointer-disjointness oracle and mutation scripts
+(rtexpr) report which mutable cells copy and original share.
 -/
 namespace GoaVerif.Props.C13
 open GoaVerif.TypeHash
@@ -148,6 +150,94 @@ theorem hash_sharing_in_cycle :
     hashOf gShared ⟨false, false, false⟩ 12 0 = "_t_T!_o_-a/_o_-t/_t_T!_o_-b/_o_-t/_t_T!_o_" ∧
     hashOf gUnshared ⟨false, false, false⟩ 12 0 = "_t_T!_o_-a/_o_-t/_t_T!_o_-b/_o_-t/_t_T!_o_-a/_o_-t/_t_T!_o_" := by
   decide +kernel
+
+/-! ### Copies: heap model of `Dup` (Model/DupHeap.lean) -/
+
+section dup
+open GoaVerif.DupHeap
+
+theorem dupTop_spec (fuel : Nat) (heap : List Cell) (root r : Nat) (heap' : List Cell)
+    (h : dupTop fuel heap root = some (r, heap')) :
+    (∀ i, i < heap.length → heap'[i]? = heap[i]?) ∧
+    (heap.length ≤ r ∨ ∃ n, heap'[r]? = some (.prim n)) ∧
+    (∀ j c, heap.length ≤ j → heap'[j]? = some c → ∀ p ∈ c.ptrs, heap.length ≤ p ∨ ∃ n, heap'[p]? = some (.prim n)) := by
+  unfold dupTop at h
+  split at h
+  · rename_i r0 σ hd
+    simp only [Option.some.injEq, Prod.mk.injEq] at h
+    obtain ⟨rfl, rfl⟩ := h
+    have hg : Good heap.length [] ⟨heap, []⟩ :=
+      ⟨Nat.le_refl _, by intro p hp; simp at hp, by
+        intro j c hj hget
+        have : (⟨heap, []⟩ : St).heap[j]? = none := List.getElem?_eq_none hj
+        rw [this] at hget; simp at hget⟩
+    have s := dup_spec heap.length fuel [] .typ root ⟨heap, []⟩ r0 σ hg hd
+    refine ⟨s.2.1.frame, s.2.2.1, ?_⟩
+    intro j c hj hget p hp
+    rcases s.1.newok j c hj hget with h | h
+    · simp at h
+    · exact h p hp
+  · simp at h
+
+/-- **Frame.** `Dup` never changes a cell of the heap it copies from: the original heap is a prefix of
+    the heap after the copy, for every heap (cyclic or not), every root and every amount of fuel. -/
+theorem dup_frame (fuel : Nat) (heap : List Cell) (root r : Nat) (heap' : List Cell)
+    (h : dupTop fuel heap root = some (r, heap')) : ∀ i, i < heap.length → heap'[i]? = heap[i]? :=
+  (dupTop_spec fuel heap root r heap' h).1
+
+/-- the pointers a copy owns lead from `a` to `b` -/
+inductive Reaches (heap : List Cell) : Nat → Nat → Prop where
+  | refl (a : Nat) : Reaches heap a a
+  | step {a b p : Nat} {c : Cell} : Reaches heap a b → heap[b]? = some c → p ∈ c.ptrs → Reaches heap a p
+
+/-- **Freshness.** Everything reachable from the copy (through attribute, element, key, field,
+    alternative, metadata and validation pointers) is a cell allocated by this `Dup`, or a primitive. -/
+theorem dup_fresh (fuel : Nat) (heap : List Cell) (root r : Nat) (heap' : List Cell)
+    (h : dupTop fuel heap root = some (r, heap')) (q : Nat) (hq : Reaches heap' r q) :
+    heap.length ≤ q ∨ ∃ n, heap'[q]? = some (.prim n) := by
+  have s := dupTop_spec fuel heap root r heap' h
+  induction hq with
+  | refl => exact s.2.1
+  | @step b p c _ hc hp ih =>
+    rcases ih with hb | ⟨n, hn⟩
+    · exact s.2.2 b c hb hc p hp
+    · rw [hn] at hc
+      simp only [Option.some.injEq] at hc
+      subst hc
+      simp [Cell.ptrs] at hp
+
+/-- **Independence.** Overwriting any non-primitive cell reachable from the copy leaves every cell of
+    the original as it was before the copy: changing the copy never changes the original. -/
+theorem dup_independent (fuel : Nat) (heap : List Cell) (root r : Nat) (heap' : List Cell)
+    (h : dupTop fuel heap root = some (r, heap')) (q : Nat) (hq : Reaches heap' r q)
+    (hnp : ∀ n, heap'[q]? ≠ some (.prim n)) (c : Cell) :
+    ∀ i, i < heap.length → (heap'.set q c)[i]? = heap[i]? := by
+  intro i hi
+  have hfresh : heap.length ≤ q := by
+    rcases dup_fresh fuel heap root r heap' h q hq with h1 | ⟨n, hn⟩
+    · exact h1
+    · exact absurd hn (hnp n)
+  rw [List.getElem?_set_ne (by omega)]
+  exact dup_frame fuel heap root r heap' h i hi
+
+def hRec : List Cell :=
+  [.user "T" 1 none, .att 2 (some 4) none, .obj [("self", 3), ("n", 5)], .att 0 none (some 7), .blob "meta", .att 6 none none,
+   .prim "string", .blob "validation"]
+
+/-- non-vacuity: a recursive type `T = { self: T, n: String }` with metadata and a validation is copied
+    (8 cells become 14; the copy is rooted at address 8, refers to the primitive at 6 and to nothing else
+    below 8) -/
+example : dupTop 10 hRec 0 =
+    some (8, hRec ++ [.user "T" 14 none, .blob "meta", .blob "validation", .att 8 none (some 10), .att 6 none none,
+                      .obj [("self", 11), ("n", 12)], .att 13 (some 9) none]) := by decide
+
+def hViews : List Cell := [.user "R" 1 (some 3), .att 2 none none, .prim "string", .blob "views"]
+
+/-- **Known finding (witness).** The copy of a result type keeps the address of the original's `Views`
+    slice: `ResultTypeExpr.Dup` does not copy it (`dup/shared/ResultTypeExpr.Views`). -/
+theorem views_shared : dupTop 5 hViews 0 = some (4, hViews ++ [.user "R" 5 (some 3), .att 2 none none]) := by decide
+
+end dup
 
 /-! ### Non-vacuity -/
 example : hashOf ⟨[.user "T" 0 false, .obj [("b", 1), ("a", 2)], .prim "int", .arr 3],
